@@ -249,6 +249,12 @@ def det_strategy(*, timers: bool = False, hitl: bool = False):
             "wait": draw(st.sampled_from([None, "plain", "req"])) if hitl else None,
             "wait_timeout": draw(st.sampled_from([None, None, 4, 15])) if (hitl and timers) else None,
             "ask_post": draw(st.sampled_from([0, 0, 3, 8])) if hitl else 0,
+            # a workflow-level timeout far beyond every horizon: one more (long-lived, first-armed) entry in the loop's wake-up heap,
+            # as every workflow with the default timeout has
+            "wf_timeout": draw(st.sampled_from([None, 5000, 5000])) if timers else None,
+            # the asking step first waits for an early confirmation (answered once by the harness) and only then for the reply:
+            # two sequential waits in one step, so the step is parked on the later one with the earlier one settled
+            "pre_wait": draw(st.sampled_from([False, False, True])) if hitl else False,
             "ties": draw(st.lists(st.integers(0, 7), max_size=6)),
         }
 
@@ -308,8 +314,13 @@ def det_factory(case: dict, log: dict):
     async def ask(self, ctx, ev):
         log.setdefault("ask_in", []).append(VClock.t)
         reply = None
+        if case.get("pre_wait"):
+            log.setdefault("pre_asked", []).append(VClock.t)
+            await ctx.wait_for_event(ge.Reply2, waiter_id="pre", timeout=None)
+            log.setdefault("pre_got", []).append(VClock.t)
         if case.get("wait"):
             req = {"key": "k"} if case["wait"] == "req" else None
+            log.setdefault("wait_at", []).append(VClock.t)
             try:
                 r = await ctx.wait_for_event(ge.Reply, waiter_id="ask", requirements=req, timeout=case.get("wait_timeout"))
                 reply = r.get("key")
@@ -342,7 +353,7 @@ def det_factory(case: dict, log: dict):
     cls = type("DetWf", (Workflow,), members)
 
     def factory():
-        return cls(timeout=None)
+        return cls(timeout=case.get("wf_timeout"))
 
     return factory
 
